@@ -2,7 +2,7 @@
 """Fail-closed translator: arithmetic and expression-level code of votelib -> Gallina.
 
 usage: py2v.py <repo> <outdir>
-Writes <outdir>/{Divisor,Quota,Pairwin,Rankscore,Threshold,Approval,Openlist,Core,CoreQsel,Signatures}.v, <outdir>/Signatures.json and <outdir>/STATUS.json
+Writes <outdir>/{Divisor,Quota,Pairwin,Rankscore,Threshold,Approval,Openlist,Core,CoreQsel,Signatures,Validate}.v, <outdir>/Signatures.json and <outdir>/STATUS.json
 (per unit: status ok | partial | failed, per definition ok | "unsupported: <why> at line N: <ast node>").
 
 1. Untyped function translator (component/divisor.py, component/quota.py).  Accepted subset (anything else raises
@@ -27,6 +27,9 @@ Writes <outdir>/{Divisor,Quota,Pairwin,Rankscore,Threshold,Approval,Openlist,Cor
    keys, constructor parameters and how __init__ stores each (Stored | StoredAs | Transformed line | NotStored), attribute writes after
    construction, mutable default arguments, evaluate / convert / validate parameter lists - see the comment above class SigTables.
    Nothing is rejected here: a form that is not read as a verbatim store is recorded as Transformed (the proofs then do not cover it).
+6. Validation code over dynamically typed objects (vote.py magnitude checker / validators, candidate.py nominators,
+   convert.InvalidVoteEliminator.convert -> Gen/Validate.v): whole method bodies, exceptions as results, isinstance read against the
+   class hierarchy of candidate.py - see the comment above VAL_HEADER / class VX; operations on objects read by Prelude/PyObj.v.
 The reading of the Python primitives is Prelude/PyNum.v and Prelude/PyList.v (trusted base).
 tools/gentie_selftest.py replays source edits (equivalent rewrites, semantic changes, untranslatable forms) against the
 translator and the Props/GenTie_*.v proofs.
@@ -2795,6 +2798,738 @@ def generate_signatures(repo):
     return text, infos, muts
 
 
+# ---------------------------------------------------------------- part 6: validation code over dynamically typed objects (Gen/Validate.v)
+# vote.py VoteMagnitudeChecker / DefaultedCheckers / the five validators, candidate.py nominators, convert.InvalidVoteEliminator.convert,
+# translated as WHOLE METHOD BODIES.  A ballot is an arbitrary object (Model.Validate.pyobj); every operation on it is dynamic and read
+# by Prelude/PyObj.v (py_len, py_iter, py_getitem, py_unpack2, py_set_add, py_sum, py_ge ..: the value, or the exception CPython
+# raises).  An instance of a translated class is represented by its attributes (VAL_CLASSES: one parameter per attribute, in the
+# declared order); a checker VALUE is a Model.Validate.bounds pair, a DefaultedCheckers value a keyed_bounds pair, a nominator a
+# Model.Validate.nominator whose constructor selects the class (Nominator_validate dispatches on it), a validator a function.
+# Exceptions are results: a method declared raising returns  T + pyvexn ; `raise X(..)` is  inr PyX  (arguments of the exception are
+# not evaluated: they are messages); a raising operation is hoisted in evaluation order as
+#    match <op> with inl v => <the statement and what follows> | inr e => inr e end
+# Accepted subset (anything else: Unsupported -> the unit is marked failed, fail closed):
+#    stmt ::= x = e | x += e | x = set() | x = [] | x = x.copy() | return e | raise X(..) | e.m(..) | s.add(e) | s.update(e) | l.append(e)
+#           | del d[e] | if c: .. [elif/else: ..]  (a branch that falls through hands on the variables it assigns as a tuple)
+#           | for x in e: .. | for a, b in e: .. | for i, x in enumerate(e): ..   (-> py_for over the items, state = the variables assigned)
+#           | try: e.m(..) except <VoteError>: ..   (-> a test of the exception constructor against the subclasses of VoteError in vote.py)
+#    e ::= int | name | self.a | self.m(..) | super().m(..) | e.m(..) for a translated class | d.get(k, e) | e[i] | e + e | e - e
+#        | len(e) | sum(g) | frozenset(g) | bool(e) | any(bounds) | round(e, k) | isinstance(e, T) | not e | e and e | e or e (short circuit kept when an operand may raise)
+#        | e (<|<=|>|>=|==|!=) e | e is [not] None | e [not] in l | e.candidacy_for (boolean context)
+#    g ::= e for x in e | e for a, b in e          isinstance(e, T): T a class of candidate.py, str, frozenset, tuple, list, collections.abc.Set|Sequence, or a
+#    tuple of these -> a test of the constructor of the object, the candidate kinds (str, Person, PoliticalParty, Coalition, blank
+#    options) placed by the class hierarchy READ FROM candidate.py.
+VAL_HEADER = """(* GENERATED by tools/py2v.py (part 6) from votelib/vote.py, votelib/candidate.py, votelib/convert.py -- do not edit. *)
+From Coq Require Import ZArith QArith List Bool.
+From VL Require Import Model.Validate Prelude.PyObj.
+Import ListNotations.
+(* Model.Validate is imported for the object grammar (pyobj, nominator, bounds, keyed_bounds) only; the operations on objects are
+   read by Prelude/PyObj.v; an operation that may raise is a match on its result, in evaluation order. *)
+"""
+
+VAL_COQ = {'obj': 'pyobj', 'int': 'Z', 'bool': 'bool', 'optnum': 'option Q', 'set': 'list pyobj', 'list': 'list pyobj', 'unit': 'unit',
+           'nom': 'nominator', 'validator': '(pyobj -> unit + pyvexn)', 'votes': 'list (pyobj * Z)', 'zdict': 'list (Z * bounds)',
+           'bounds': 'bounds', 'kbounds': 'keyed_bounds'}
+VAL_REP = {'bounds': 'VoteMagnitudeChecker', 'kbounds': 'DefaultedCheckers'}      # value type -> the class it is an instance of
+
+_V = ('validate', [('vote', 'obj')], 'unit', True)
+_NV = ('validate', [('candidate', 'obj')], 'unit', True)
+VAL_CLASSES = [
+    dict(file='vote', name='VoteMagnitudeChecker', fields=[('min_value', 'optnum'), ('max_value', 'optnum')], derived=['_active'],
+         methods=[('__bool__', [], 'bool', False), ('is_valid', [('value', 'obj')], 'bool', True), ('check', [('value', 'obj')], 'unit', True)]),
+    dict(file='vote', name='DefaultedCheckers', fields=[('checkers', 'zdict'), ('default', 'bounds')],
+         methods=[('__getitem__', [('key', 'int')], 'bounds', False)]),
+    dict(file='candidate', name='BasicNominator', ctor='NBasic', fields=[('allow_blank', 'bool')], methods=[_NV]),
+    dict(file='candidate', name='PersonNominator', ctor='NPerson', fields=[('allow_independents', 'bool'), ('allow_blank', 'bool')], methods=[_NV]),
+    dict(file='candidate', name='PartyNominator', ctor='NParty', fields=[('allow_coalitions', 'bool'), ('allow_blank', 'bool')], methods=[_NV]),
+    dict(file='vote', name='SimpleVoteValidator', fields=[('nominator', 'nom')], methods=[_V]),
+    dict(file='vote', name='ApprovalVoteValidator', fields=[('nominator', 'nom'), ('count_checker', 'bounds')], methods=[_V]),
+    dict(file='vote', name='RankedVoteValidator', fields=[('nominator', 'nom'), ('total_count_checker', 'bounds'),
+                                                          ('rank_vote_count_checkers', 'kbounds')], methods=[_V]),
+    dict(file='vote', name='ScoreVoteValidator', fields=[('nominator', 'nom'), ('n_scorings_checker', 'bounds'), ('sum_checkers', 'kbounds')],
+         methods=[_V]),
+    dict(file='vote', name='EnumScoreVoteValidator', fields=[('nominator', 'nom'), ('n_scorings_checker', 'bounds'), ('sum_checkers', 'kbounds'),
+                                                             ('score_levels', 'list')], methods=[_V]),
+    dict(file='vote', name='RangeVoteValidator', fields=[('nominator', 'nom'), ('n_scorings_checker', 'bounds'), ('sum_checkers', 'kbounds'),
+                                                         ('range_checker', 'bounds')], methods=[_V]),
+    dict(file='convert', name='InvalidVoteEliminator', fields=[('validator', 'validator')],
+         methods=[('convert', [('votes', 'votes')], 'votes', True)]),
+]
+VAL_FILES = {'vote': 'votelib/vote.py', 'candidate': 'votelib/candidate.py', 'convert': 'votelib/convert.py'}
+# the concrete class of every candidate kind of the grammar (harness/props/c20.py pyobj builds exactly these)
+VAL_KINDS = [('OCand KStr _', ['str']), ('OCand (KPerson _) _', ['Person']), ('OCand KParty _', ['PoliticalParty']),
+             ('OCand KCoalition _', ['Coalition']), ('OCand KBlank _', ['NoneOfTheAbove', 'ReopenNominations'])]
+VAL_BUILTIN = {'str': {'str', 'collections.abc.Sequence'}, 'tuple': {'tuple', 'collections.abc.Sequence'},
+               'list': {'list', 'collections.abc.Sequence'}, 'frozenset': {'frozenset', 'collections.abc.Set'}}
+VAL_EXC = ['VoteError', 'VoteTypeError', 'VoteMagnitudeError', 'VoteValueError', 'CandidateError']
+
+
+def _v_dotted(e):
+    if isinstance(e, ast.Name):
+        return e.id
+    if isinstance(e, ast.Attribute):
+        b = _v_dotted(e.value)
+        return None if b is None else b + '.' + e.attr
+    return None
+
+
+def _v_stores(stmts):
+    out = []
+    for s in stmts:
+        for n in ast.walk(s):
+            if isinstance(n, ast.Name) and isinstance(n.ctx, ast.Store):
+                out.append(n.id)
+            elif isinstance(n, ast.Call) and isinstance(n.func, ast.Attribute) and isinstance(n.func.value, ast.Name) \
+                    and n.func.attr in ('add', 'update', 'append'):
+                out.append(n.func.value.id)
+            elif isinstance(n, ast.Delete):
+                for t in n.targets:
+                    if isinstance(t, ast.Subscript) and isinstance(t.value, ast.Name):
+                        out.append(t.value.id)
+    seen = []
+    for x in out:
+        if x not in seen:
+            seen.append(x)
+    return seen
+
+
+class VX:
+    def __init__(self, trees):
+        self.trees = trees
+        self.classes = {c['name']: c for c in VAL_CLASSES}
+        self.defs = {}           # (class, method) -> (params, ret, raising)
+        self.n = 0
+        self.hs = []
+        self.bases = {}          # class name -> base names, over the three files
+        for t in trees.values():
+            for cd in t.body:
+                if isinstance(cd, ast.ClassDef):
+                    self.bases[cd.name] = [_v_dotted(b) for b in cd.bases if _v_dotted(b)]
+
+    # ---- class hierarchy
+    def ancestors(self, name):
+        out, todo = set(), [name]
+        while todo:
+            c = todo.pop()
+            if c in out:
+                continue
+            out.add(c)
+            todo.extend(b.split('.')[-1] for b in self.bases.get(c, []))
+        return out
+
+    def classdef(self, cname):
+        t = self.trees[self.classes[cname]['file']]
+        for cd in t.body:
+            if isinstance(cd, ast.ClassDef) and cd.name == cname:
+                return cd
+        raise Unsupported('class %s not found' % cname)
+
+    def method(self, cname, mname):
+        for fd in self.classdef(cname).body:
+            if isinstance(fd, ast.FunctionDef) and fd.name == mname:
+                return fd
+        return None
+
+    def parent(self, cname):
+        bs = [b.split('.')[-1] for b in self.bases.get(cname, []) if b.split('.')[-1] in self.classes]
+        if len(bs) != 1:
+            raise Unsupported('no translated base class of %s' % cname)
+        return bs[0]
+
+    def isinstance_term(self, x, tnode):
+        ts = tnode.elts if isinstance(tnode, ast.Tuple) else [tnode]
+        names = []
+        for t in ts:
+            d = _v_dotted(t)
+            if d is None:
+                die(tnode, 'isinstance against a computed class')
+            if not (d in self.bases or any(d in v for v in VAL_BUILTIN.values())):
+                die(tnode, 'isinstance against a class the object grammar does not place')
+            names.append(d)
+        arms = []
+        for pat, concrete in VAL_KINDS:
+            verdicts = set()
+            for c in concrete:
+                if c in VAL_BUILTIN:
+                    verdicts.add(any(n in VAL_BUILTIN[c] for n in names))
+                else:
+                    if c not in self.bases:
+                        raise Unsupported('candidate class %s not found' % c)
+                    verdicts.add(any(n in self.ancestors(c) for n in names))
+            if len(verdicts) != 1:
+                die(tnode, 'the classes of one candidate kind disagree')
+            arms.append('%s => %s' % (pat, 'true' if verdicts.pop() else 'false'))
+        arms.append('ONum _ _ => false | ONone => false')
+        for pat, c in (('OTuple _', 'tuple'), ('OFrozen _', 'frozenset'), ('OList _', 'list')):
+            arms.append('%s => %s' % (pat, 'true' if any(n in VAL_BUILTIN[c] for n in names) else 'false'))
+        return '(match %s with %s end)' % (x, ' | '.join(arms))
+
+    # ---- plumbing
+    def fresh(self, p):
+        self.n += 1
+        return "%s'%d" % (p, self.n)
+
+    def hoist(self, term, p='h'):
+        v = self.fresh(p)
+        self.hs.append((v, term))
+        return v
+
+    def scoped(self, fn):
+        old, self.hs = self.hs, []
+        try:
+            r = fn()
+            hs = self.hs
+        finally:
+            self.hs = old
+        return r, hs
+
+    def wrap(self, hs, body):
+        for v, t in reversed(hs):
+            e = self.fresh('e')
+            body = '(match %s with inl %s => %s | inr %s => inr %s end)' % (t, v, body, e, e)
+        return body
+
+    def coerce(self, term, ty, want, node):
+        if ty == want:
+            return term
+        if ty == 'int' and want == 'obj':
+            return '(py_int %s)' % term
+        die(node, 'a value of type %s where %s is expected' % (ty, want))
+
+    def tup(self, names, env):
+        if not names:
+            return 'tt'
+        if len(names) == 1:
+            return env[names[0]][0]
+        return '(%s)' % ', '.join(env[n][0] for n in names)
+
+    def untup(self, names, var):
+        if not names:
+            return ''
+        if len(names) == 1:
+            return 'let %s := %s in ' % (names[0], var)
+        return "let '(%s) := %s in " % (', '.join(names), var)
+
+    # ---- calls of translated methods
+    def self_args(self, cname, env):
+        return [env['self.' + f][0] for f, _ in self.classes[cname]['fields']]
+
+    def call_method(self, cname, mname, selfargs, argnodes, env, node):
+        if (cname, mname) not in self.defs:
+            die(node, 'method %s.%s is not translated (yet)' % (cname, mname))
+        params, ret, raising = self.defs[(cname, mname)]
+        if len(argnodes) != len(params):
+            die(node, 'argument count')
+        args = []
+        for a, (_, pty) in zip(argnodes, params):
+            t, ty = self.ex(a, env)
+            args.append(self.coerce(t, ty, pty, a))
+        term = '(%s_%s %s)' % (cname, mname, ' '.join(selfargs + args))
+        if raising:
+            return self.hoist(term), ret
+        return term, ret
+
+    def call(self, n, env):
+        f = n.func
+        if n.keywords:
+            die(n, 'keyword arguments')
+        recv = f.value
+        if isinstance(recv, ast.Call) and isinstance(recv.func, ast.Name) and recv.func.id == 'super' and not recv.args:
+            p = self.parent(self.cur)
+            return self.call_method(p, f.attr, self.self_args(p, env), n.args, env, n)
+        if isinstance(recv, ast.Name) and recv.id == 'self':
+            return self.call_method(self.cur, f.attr, self.self_args(self.cur, env), n.args, env, n)
+        v, t = self.ex(recv, env)
+        if t in VAL_REP:
+            return self.call_method(VAL_REP[t], f.attr, ['(fst %s)' % v, '(snd %s)' % v], n.args, env, n)
+        if t == 'nom':
+            if ('Nominator', f.attr) not in self.defs:
+                die(n, 'nominator method')
+            return self.call_method('Nominator', f.attr, [v], n.args, env, n)
+        if t == 'validator' and f.attr == 'validate' and len(n.args) == 1:
+            a, at = self.ex(n.args[0], env)
+            return self.hoist('(%s %s)' % (v, self.coerce(a, at, 'obj', n))), 'unit'
+        if t == 'zdict' and f.attr == 'get' and len(n.args) == 2:
+            k, kt = self.ex(n.args[0], env)
+            d, dt = self.ex(n.args[1], env)
+            if kt != 'int' or dt != 'bounds':
+                die(n, 'dict.get types')
+            return '(py_zget %s %s %s)' % (v, k, d), 'bounds'
+        if t == 'votes' and f.attr == 'keys' and not n.args:
+            return '(map fst %s)' % v, 'list'
+        if t == 'votes' and f.attr == 'copy' and not n.args:
+            return v, 'votes'
+        die(n, 'method call on a value of type %s' % (t,))
+
+    # ---- expressions
+    def ex(self, n, env):
+        if isinstance(n, ast.Name):
+            if n.id in env:
+                return env[n.id]
+            die(n, 'unknown name')
+        if isinstance(n, ast.Constant):
+            if isinstance(n.value, bool):
+                return ('true' if n.value else 'false'), 'bool'
+            if isinstance(n.value, int):
+                return '(%d)%%Z' % n.value, 'int'
+            die(n, 'constant')
+        if isinstance(n, ast.Attribute):
+            if isinstance(n.value, ast.Name) and n.value.id == 'self':
+                if 'self.' + n.attr in env:
+                    return env['self.' + n.attr]
+                if n.attr in self.classes[self.cur].get('derived', []) and (self.cur, n.attr) in self.defs:
+                    return '(%s_%s %s)' % (self.cur, n.attr, ' '.join(self.self_args(self.cur, env))), 'bool'
+            die(n, 'attribute')
+        if isinstance(n, ast.Call):
+            f = n.func
+            if isinstance(f, ast.Attribute):
+                return self.call(n, env)
+            if not isinstance(f, ast.Name) or n.keywords:
+                die(n, 'call')
+            if f.id == 'len' and len(n.args) == 1:
+                v, t = self.ex(n.args[0], env)
+                if t in ('set', 'list', 'votes'):
+                    return '(py_len_items %s)' % v, 'int'
+                if t == 'obj':
+                    return self.hoist('(py_len %s)' % v), 'int'
+                die(n, 'len of %s' % (t,))
+            if f.id == 'isinstance' and len(n.args) == 2:
+                v, t = self.ex(n.args[0], env)
+                if t != 'obj':
+                    die(n, 'isinstance of a non-object')
+                return self.isinstance_term(v, n.args[1]), 'bool'
+            if f.id in ('sum', 'frozenset') and len(n.args) == 1 and isinstance(n.args[0], ast.GeneratorExp):
+                lst = self.genexp(n.args[0], env)
+                if f.id == 'sum':
+                    return self.hoist('(py_sum %s)' % lst), 'obj'
+                return self.hoist('(py_frozenset %s)' % lst), 'set'
+            if f.id == 'bool' and len(n.args) == 1:
+                return self.truthy(n.args[0], env), 'bool'
+            if f.id == 'set' and not n.args:
+                return '([] : list pyobj)', 'set'
+            if f.id == 'any' and len(n.args) == 1:
+                v, t = self.ex(n.args[0], env)
+                if t == 'optpair':
+                    return '(orb (py_truthy_optnum (fst %s)) (py_truthy_optnum (snd %s)))' % (v, v), 'bool'
+                die(n, 'any of %s' % (t,))
+            if f.id == 'round' and len(n.args) == 2 and isinstance(n.args[1], ast.Constant) and isinstance(n.args[1].value, int) \
+                    and not isinstance(n.args[1].value, bool) and n.args[1].value >= 0:
+                v, t = self.ex(n.args[0], env)
+                return self.hoist('(py_round %s (%d)%%Z)' % (self.coerce(v, t, 'obj', n), n.args[1].value)), 'obj'
+            die(n, 'call of %s' % f.id)
+        if isinstance(n, ast.List) and not n.elts:
+            return '([] : list pyobj)', 'list'
+        if isinstance(n, ast.Subscript):
+            v, t = self.ex(n.value, env)
+            if t == 'obj' and isinstance(n.slice, ast.Constant) and isinstance(n.slice.value, int) and not isinstance(n.slice.value, bool):
+                return self.hoist('(py_getitem %s (%d)%%Z)' % (v, n.slice.value)), 'obj'
+            if t in VAL_REP:
+                return self.call_method(VAL_REP[t], '__getitem__', ['(fst %s)' % v, '(snd %s)' % v], [n.slice], env, n)
+            die(n, 'subscript of %s' % (t,))
+        if isinstance(n, ast.BinOp) and isinstance(n.op, (ast.Add, ast.Sub)):
+            a, at = self.ex(n.left, env)
+            b, bt = self.ex(n.right, env)
+            if at == bt == 'int':
+                return '(%s %s %s)%%Z' % (a, '+' if isinstance(n.op, ast.Add) else '-', b), 'int'
+            die(n, 'arithmetic on %s, %s' % (at, bt))
+        if isinstance(n, ast.Compare) and len(n.ops) == 1:
+            return self.compare(n, env), 'bool'
+        if isinstance(n, ast.BoolOp) or (isinstance(n, ast.UnaryOp) and isinstance(n.op, ast.Not)):
+            return self.truthy(n, env, strict=isinstance(n, ast.BoolOp)), 'bool'
+        die(n, 'expression')
+
+    def compare(self, n, env):
+        op, rn = n.ops[0], n.comparators[0]
+        if isinstance(op, (ast.Is, ast.IsNot)):
+            if not (isinstance(rn, ast.Constant) and rn.value is None):
+                die(n, 'identity test')
+            l, lt = self.ex(n.left, env)
+            if lt != 'optnum':
+                die(n, 'is None of %s' % (lt,))
+            t = '(py_is_none %s)' % l
+            return t if isinstance(op, ast.Is) else '(negb %s)' % t
+        l, lt = self.ex(n.left, env)
+        r, rt = self.ex(rn, env)
+        if isinstance(op, (ast.In, ast.NotIn)):
+            if lt != 'obj' or rt != 'list':
+                die(n, 'membership in %s' % (rt,))
+            t = '(py_in_list %s %s)' % (l, r)
+            return t if isinstance(op, ast.In) else '(negb %s)' % t
+        if lt == rt == 'int':
+            t = {ast.Lt: '(%s <? %s)%%Z', ast.LtE: '(%s <=? %s)%%Z', ast.Eq: '(%s =? %s)%%Z', ast.NotEq: '(negb (%s =? %s)%%Z)'}.get(type(op))
+            if t:
+                return t % (l, r)
+            t = {ast.Gt: '(%s <? %s)%%Z', ast.GtE: '(%s <=? %s)%%Z'}.get(type(op))
+            if t:
+                return t % (r, l)
+            die(n, 'comparison')
+        if lt in ('obj', 'int') and rt == 'optnum':
+            f = {ast.GtE: 'py_ge', ast.LtE: 'py_le', ast.Gt: 'py_gt', ast.Lt: 'py_lt'}.get(type(op))
+            if f:
+                return self.hoist('(%s %s %s)' % (f, self.coerce(l, lt, 'obj', n), r))
+        die(n, 'comparison of %s with %s' % (lt, rt))
+
+    def truthy(self, n, env, strict=False):
+        if isinstance(n, ast.BoolOp):
+            acc = self.truthy(n.values[0], env, strict)
+            for vn in n.values[1:]:
+                t, hs = self.scoped(lambda: self.truthy(vn, env, strict))
+                if not hs:
+                    acc = '(%s %s %s)' % ('orb' if isinstance(n.op, ast.Or) else 'andb', acc, t)
+                elif isinstance(n.op, ast.Or):
+                    acc = self.hoist('(if %s then inl true else %s)' % (acc, self.wrap(hs, 'inl %s' % t)), 'b')
+                else:
+                    acc = self.hoist('(if %s then %s else inl false)' % (acc, self.wrap(hs, 'inl %s' % t)), 'b')
+            return acc
+        if isinstance(n, ast.UnaryOp) and isinstance(n.op, ast.Not):
+            return '(negb %s)' % self.truthy(n.operand, env)
+        if isinstance(n, ast.Attribute) and n.attr == 'candidacy_for' and not strict:
+            v, t = self.ex(n.value, env)
+            if t != 'obj':
+                die(n, 'candidacy_for of %s' % (t,))
+            return self.hoist('(py_candidacy_for_truthy %s)' % v, 'b')
+        if isinstance(n, ast.Call) and isinstance(n.func, ast.Name) and n.func.id == 'bool' and len(n.args) == 1:
+            return self.truthy(n.args[0], env)
+        v, t = self.ex(n, env)
+        if t == 'bool':
+            return v
+        if strict:
+            die(n, 'and / or over non-boolean values outside a boolean context')
+        if t == 'optnum':
+            return '(py_truthy_optnum %s)' % v
+        if t in VAL_REP and (VAL_REP[t], '__bool__') in self.defs:
+            return '(%s___bool__ (fst %s) (snd %s))' % (VAL_REP[t], v, v)
+        if t in ('set', 'list', 'votes'):
+            return '(negb (py_len_items %s =? 0)%%Z)' % v
+        die(n, 'truth value of %s' % (t,))
+
+    def iter_items(self, it, env):
+        """the items of an iterable as a Coq list, and the type of an item"""
+        if isinstance(it, ast.Call) and isinstance(it.func, ast.Name) and it.func.id == 'enumerate' and len(it.args) == 1 and not it.keywords:
+            l, _ = self.iter_items(it.args[0], env)
+            return '(py_enumerate %s)' % l, 'pair'
+        v, t = self.ex(it, env)
+        if t == 'obj':
+            return self.hoist('(py_iter %s)' % v, 'items'), 'obj'
+        if t in ('set', 'list'):
+            return v, 'obj'
+        die(it, 'iteration over %s' % (t,))
+
+    def genexp(self, g, env):
+        if len(g.generators) != 1 or g.generators[0].ifs or g.generators[0].is_async:
+            die(g, 'generator expression')
+        tg = g.generators[0].target
+        items, ity = self.iter_items(g.generators[0].iter, env)
+        if ity != 'obj':
+            die(g, 'generator over pairs')
+        env2 = dict(env)
+        if isinstance(tg, ast.Name):
+            x, bind = tg.id, '%s'
+            env2[x] = (x, 'obj')
+        elif isinstance(tg, ast.Tuple) and len(tg.elts) == 2 and all(isinstance(e, ast.Name) for e in tg.elts):
+            x, pr, e = self.fresh('it'), self.fresh('pr'), self.fresh('e')
+            a, b = (e_.id for e_ in tg.elts)
+            bind = '(match py_unpack2 %s with inl %s => let %s := fst %s in let %s := snd %s in %%s | inr %s => inr %s end)' % (
+                x, pr, a, pr, b, pr, e, e)
+            env2[a], env2[b] = (a, 'obj'), (b, 'obj')
+        else:
+            die(g, 'generator target')
+        (t, ty), hs = self.scoped(lambda: self.ex(g.elt, env2))
+        if ty != 'obj':
+            die(g, 'generator of %s' % (ty,))
+        if hs or bind != '%s':
+            return self.hoist('(py_mapM (fun %s => %s) %s)' % (x, bind % self.wrap(hs, 'inl %s' % t), items), 'l')
+        return '(map (fun %s => %s) %s)' % (x, t, items)
+
+    # ---- statements.  k(env) is the term of what follows the block (called exactly once per fall-through path)
+    def blk(self, stmts, env, k):
+        if not stmts:
+            return k(env)
+        s, rest = stmts[0], stmts[1:]
+
+        def cont(env2):
+            return self.blk(rest, env2, k)
+
+        def stmt(fn):
+            """translate one statement: fn() -> body term given after hoists"""
+            body, hs = self.scoped(fn)
+            return self.wrap(hs, body)
+        if isinstance(s, ast.Expr) and isinstance(s.value, ast.Constant) and isinstance(s.value.value, str):
+            return cont(env)
+        if isinstance(s, ast.Raise):
+            if rest:
+                die(s, 'code after raise')
+            return 'inr %s' % self.exc_ctor(s.exc)
+        if isinstance(s, ast.Return):
+            if rest or s.value is None:
+                die(s, 'return')
+
+            def f():
+                t, ty = self.ex(s.value, env)
+                return 'inl %s' % self.coerce(t, ty, self.ret, s)
+            return stmt(f)
+        if isinstance(s, ast.Assign) and len(s.targets) == 1 and isinstance(s.targets[0], ast.Name):
+            x = s.targets[0].id
+
+            def f():
+                t, ty = self.ex(s.value, env)
+                env2 = dict(env)
+                env2[x] = (x, ty)
+                return 'let %s := %s in %s' % (x, t, cont(env2))
+            return stmt(f)
+        if isinstance(s, ast.AugAssign) and isinstance(s.target, ast.Name) and isinstance(s.op, ast.Add):
+            x = s.target.id
+
+            def f():
+                if x not in env or env[x][1] != 'int':
+                    die(s, 'augmented assignment')
+                t, ty = self.ex(s.value, env)
+                if ty != 'int':
+                    die(s, 'augmented assignment of %s' % (ty,))
+                return 'let %s := (%s + %s)%%Z in %s' % (x, env[x][0], t, cont(env))
+            return stmt(f)
+        if isinstance(s, ast.Delete) and len(s.targets) == 1 and isinstance(s.targets[0], ast.Subscript) \
+                and isinstance(s.targets[0].value, ast.Name):
+            d = s.targets[0].value.id
+
+            def f():
+                if d not in env or env[d][1] != 'votes':
+                    die(s, 'del')
+                kt, kty = self.ex(s.targets[0].slice, env)
+                if kty != 'obj':
+                    die(s, 'del key')
+                v = self.hoist('(py_dict_del %s %s)' % (env[d][0], kt), 'd')
+                return 'let %s := %s in %s' % (d, v, cont(env))
+            return stmt(f)
+        if isinstance(s, ast.Expr) and isinstance(s.value, ast.Call) and isinstance(s.value.func, ast.Attribute):
+            c = s.value
+            recv = c.func.value
+            if isinstance(recv, ast.Name) and recv.id in env and env[recv.id][1] in ('set', 'list') and len(c.args) == 1 and not c.keywords:
+                x, xt = recv.id, env[recv.id][1]
+                m = c.func.attr
+
+                def f():
+                    a, at = self.ex(c.args[0], env)
+                    if at != 'obj':
+                        die(s, 'container of %s' % (at,))
+                    if xt == 'set' and m in ('add', 'update'):
+                        v = self.hoist('(py_set_%s %s %s)' % (m, env[x][0], a), 's')
+                    elif xt == 'list' and m == 'append':
+                        v = '(%s ++ [%s])' % (env[x][0], a)
+                    else:
+                        die(s, 'container method')
+                    return 'let %s := %s in %s' % (x, v, cont(env))
+                return stmt(f)
+
+            def f():
+                t, ty = self.call(c, env)
+                if ty != 'unit':
+                    die(s, 'call statement returning %s' % (ty,))
+                return cont(env)
+            return stmt(f)
+        if isinstance(s, ast.If):
+            def f():
+                c = self.truthy(s.test, env)
+                if not s.orelse and self.terminates(s.body):
+                    return '(if %s then %s else %s)' % (c, self.blk(s.body, env, self.no_fall(s)), cont(env))
+                names = [x for x in _v_stores(s.body + s.orelse) if x in env]
+                st = self.fresh('st')
+                e = self.fresh('e')
+
+                def leave(env2):
+                    return 'inl %s' % self.tup(names, env2)
+                a = self.blk(s.body, env, leave)
+                b = self.blk(s.orelse, env, leave)
+                return '(match (if %s then %s else %s) with inl %s => %s%s | inr %s => inr %s end)' % (
+                    c, a, b, st, self.untup(names, st), cont(env), e, e)
+            return stmt(f)
+        if isinstance(s, ast.For) and not s.orelse:
+            def f():
+                items, ity = self.iter_items(s.iter, env)
+                it = self.fresh('it')
+                env2 = dict(env)
+                if isinstance(s.target, ast.Name) and ity == 'obj':
+                    bind = 'let %s := %s in %%s' % (s.target.id, it)
+                    env2[s.target.id] = (s.target.id, 'obj')
+                    tnames = [s.target.id]
+                elif isinstance(s.target, ast.Tuple) and len(s.target.elts) == 2 and all(isinstance(x, ast.Name) for x in s.target.elts):
+                    a, b = (x.id for x in s.target.elts)
+                    tnames = [a, b]
+                    if ity == 'pair':
+                        bind = 'let %s := fst %s in let %s := snd %s in %%s' % (a, it, b, it)
+                        env2[a], env2[b] = (a, 'int'), (b, 'obj')
+                    else:
+                        pr, e = self.fresh('pr'), self.fresh('e')
+                        bind = '(match py_unpack2 %s with inl %s => let %s := fst %s in let %s := snd %s in %%s | inr %s => inr %s end)' % (
+                            it, pr, a, pr, b, pr, e, e)
+                        env2[a], env2[b] = (a, 'obj'), (b, 'obj')
+                else:
+                    die(s, 'loop target')
+                names = [x for x in _v_stores(s.body) if x in env and x not in tnames]
+                if any(x in env for x in tnames):
+                    die(s, 'loop variable shadows a live name')
+                st, st2, e = self.fresh('st'), self.fresh('st'), self.fresh('e')
+                body = self.blk(s.body, env2, lambda env3: 'inl %s' % self.tup(names, env3))
+                fun = '(fun %s %s => %s%s)' % (st, it, self.untup(names, st), bind % body)
+                return '(match py_for %s %s %s with inl %s => %s%s | inr %s => inr %s end)' % (
+                    items, fun, self.tup(names, env), st2, self.untup(names, st2), cont(env), e, e)
+            return stmt(f)
+        if isinstance(s, ast.Try) and len(s.body) == 1 and len(s.handlers) == 1 and not s.orelse and not s.finalbody \
+                and isinstance(s.body[0], ast.Expr) and isinstance(s.body[0].value, ast.Call) and s.handlers[0].name is None:
+            h = s.handlers[0]
+            caught = self.caught(h.type)
+            names = [x for x in _v_stores(h.body) if x in env]
+            (t, ty), hs = self.scoped(lambda: self.ex(s.body[0].value, env))
+            if ty != 'unit' or len(hs) != 1 or hs[0][0] != t:
+                die(s, 'try body')
+            e, st, e2 = self.fresh('e'), self.fresh('st'), self.fresh('e')
+            test = '(match %s with %s => true | _ => false end)' % (e, ' | '.join(caught))
+            handler = self.blk(h.body, env, lambda env2: 'inl %s' % self.tup(names, env2))
+            return '(match (match %s with inl _ => inl %s | inr %s => if %s then %s else inr %s end) with inl %s => %s%s | inr %s => inr %s end)' % (
+                hs[0][1], self.tup(names, env), e, test, handler, e, st, self.untup(names, st), cont(env), e2, e2)
+        die(s, 'statement')
+
+    def terminates(self, stmts):
+        if not stmts:
+            return False
+        s = stmts[-1]
+        if isinstance(s, (ast.Raise, ast.Return)):
+            return True
+        if isinstance(s, ast.If) and s.orelse:
+            return self.terminates(s.body) and self.terminates(s.orelse)
+        return False
+
+    def no_fall(self, s):
+        def k(env):
+            die(s, 'internal: a terminating block fell through')
+        return k
+
+    def exc_ctor(self, e):
+        name = _v_dotted(e.func if isinstance(e, ast.Call) else e)
+        name = (name or '').split('.')[-1]
+        if name not in VAL_EXC or name not in self.bases:
+            die(e, 'exception class')
+        return 'Py' + name
+
+    def caught(self, tnode):
+        name = (_v_dotted(tnode) or '').split('.')[-1]
+        if name not in VAL_EXC:
+            die(tnode, 'except clause')
+        out = ['Py' + x for x in VAL_EXC if x in self.bases and name in self.ancestors(x)]
+        if not out:
+            die(tnode, 'except clause catches nothing')
+        return out
+
+    # ---- definitions
+    def check_fields(self, c):
+        """every declared attribute is stored by __init__ of the class or of a base; nominator flags verbatim"""
+        chain = [c['name']]
+        while True:
+            try:
+                chain.append(self.parent(chain[-1]))
+            except Unsupported:
+                break
+        stored = {}
+        for cn in chain:
+            fd = self.method(cn, '__init__')
+            if fd is None:
+                continue
+            for n in ast.walk(fd):
+                if isinstance(n, ast.Assign):
+                    for t in n.targets:
+                        for tt in (t.elts if isinstance(t, ast.Tuple) else [t]):
+                            if isinstance(tt, ast.Attribute) and isinstance(tt.value, ast.Name) and tt.value.id == 'self':
+                                stored.setdefault(tt.attr, []).append((n, t))
+        for f, ty in c['fields']:
+            if f not in stored:
+                raise Unsupported('%s.__init__ does not store self.%s' % (c['name'], f))
+            if ty == 'bool':
+                n, t = stored[f][0]
+                if len(stored[f]) != 1 or not (isinstance(n.value, ast.Name) and n.value.id == f and isinstance(t, ast.Attribute)):
+                    raise Unsupported('%s.__init__ does not store %s verbatim' % (c['name'], f))
+        if c['name'] == 'VoteMagnitudeChecker':
+            ok = any(isinstance(t, ast.Tuple) and [getattr(x, 'attr', None) for x in t.elts] == ['min_value', 'max_value']
+                     and isinstance(n.value, ast.Name) and n.value.id == 'bounds' for n, t in stored.get('min_value', []))
+            if not ok or len(stored['min_value']) != 1 or len(stored['max_value']) != 1:
+                raise Unsupported('VoteMagnitudeChecker.__init__ does not unpack bounds into min_value, max_value')
+        return stored
+
+    def define(self, c, out):
+        cname = c['name']
+        self.cur = cname
+        stored = self.check_fields(c)
+        fparams = ' '.join('(%s : %s)' % (f, VAL_COQ[t]) for f, t in c['fields'])
+        env0 = {'self.' + f: (f, t) for f, t in c['fields']}
+        for d in c.get('derived', []):
+            if len(stored.get(d, [])) != 1 or not isinstance(stored[d][0][1], ast.Attribute):
+                raise Unsupported('%s.%s is not set once' % (cname, d))
+            self.ret = 'bool'
+            envd = dict(env0)
+            if cname == 'VoteMagnitudeChecker':      # the constructor argument that check_fields saw unpacked into the two attributes
+                envd['bounds'] = ('(min_value, max_value)', 'optpair')
+            (t, ty), hs = self.scoped(lambda: self.ex(stored[d][0][0].value, envd))
+            if hs or ty != 'bool':
+                raise Unsupported('%s.%s is not a plain boolean' % (cname, d))
+            out.append('Definition %s_%s %s : bool :=\n  %s.' % (cname, d, fparams, t))
+            self.defs[(cname, d)] = ([], 'bool', False)
+        for mname, params, ret, raising in c['methods']:
+            fd = self.method(cname, mname)
+            if fd is None:
+                raise Unsupported('%s.%s not found' % (cname, mname))
+            a = fd.args
+            if [x.arg for x in a.args] != ['self'] + [p for p, _ in params] or a.vararg or a.kwarg or a.kwonlyargs or a.defaults \
+                    or fd.decorator_list:
+                die(fd, 'signature of %s.%s' % (cname, mname))
+            env = dict(env0)
+            for p, t in params:
+                env[p] = (p, t)
+            self.ret = ret
+            pparams = ' '.join('(%s : %s)' % (p, VAL_COQ[t]) for p, t in params)
+            if raising:
+                body = self.blk(fd.body, env, lambda env2: 'inl tt' if ret == 'unit' else die(fd, 'falls off the end'))
+                out.append('Definition %s_%s %s %s : %s + pyvexn :=\n  %s.' % (cname, mname, fparams, pparams, VAL_COQ[ret], body))
+            else:
+                ss = [s for s in fd.body if not (isinstance(s, ast.Expr) and isinstance(s.value, ast.Constant))]
+                if len(ss) != 1 or not isinstance(ss[0], ast.Return) or ss[0].value is None:
+                    die(fd, 'a method declared pure is one return')
+                (t, ty), hs = self.scoped(lambda: self.ex(ss[0].value, env))
+                if hs or ty != ret:
+                    die(fd, 'a method declared pure raises / has type %s' % (ty,))
+                out.append('Definition %s_%s %s %s : %s :=\n  %s.' % (cname, mname, fparams, pparams, VAL_COQ[ret], t))
+            self.defs[(cname, mname)] = (params, ret, raising)
+
+
+def translate_validate(repo):
+    status, missing = {}, []
+    allnames = ['%s.%s' % (c['name'], m[0]) for c in VAL_CLASSES for m in c['methods']] + ['Nominator.validate']
+    try:
+        trees = {k: ast.parse(open(os.path.join(repo, rel)).read()) for k, rel in VAL_FILES.items()}
+        vx = VX(trees)
+        out = []
+        for c in VAL_CLASSES:
+            vx.define(c, out)
+            if c['name'] == 'PartyNominator':
+                noms = [x for x in VAL_CLASSES if 'ctor' in x]
+                arms = []
+                for x in noms:
+                    vs = ['f%d' % i for i in range(len(x['fields']))]
+                    arms.append('%s %s => %s_validate %s candidate' % (x['ctor'], ' '.join(vs), x['name'], ' '.join(vs)))
+                    if 'Nominator' not in vx.ancestors(x['name']):
+                        raise Unsupported('%s is not a Nominator' % x['name'])
+                out.append('Definition Nominator_validate (nm : nominator) (candidate : pyobj) : unit + pyvexn :=\n  match nm with %s end.'
+                           % ' | '.join(arms))
+                vx.defs[('Nominator', 'validate')] = ([('candidate', 'obj')], 'unit', True)
+        for nme in allnames:
+            status[nme] = 'ok'
+        text = VAL_HEADER + '\n' + '\n\n'.join(out) + '\n'
+    except (Unsupported, SyntaxError, OSError, KeyError, RecursionError) as e:
+        text = VAL_HEADER
+        return text, dict(status='failed', reason='unsupported: %s' % e, source=', '.join(VAL_FILES.values()), missing=allnames, functions={})
+    return text, dict(status='ok', functions=status, missing=missing, source=', '.join(VAL_FILES.values()),
+                      note='whole method bodies over the object grammar of Model/Validate.v; the constructors (__init__: bounds -> checkers) '
+                           'are tied by correspondence')
+
+
 def main():
     repo, outdir = sys.argv[1], sys.argv[2]
     os.makedirs(outdir, exist_ok=True)
@@ -2890,6 +3625,11 @@ def main():
         if old != t_:
             open(path_, 'w').write(t_)
     st.update(write_c16_units(repo, outdir))     # part 6: units OpenlistEval, TieBreak (C16)
+    # part 6: validation code (vote.py validators, candidate.py nominators, convert.InvalidVoteEliminator) -> Gen/Validate.v
+    vtext, st['Validate'] = translate_validate(repo)
+    vdst = os.path.join(outdir, 'Validate.v')
+    if (open(vdst).read() if os.path.exists(vdst) else None) != vtext:
+        open(vdst, 'w').write(vtext)
     json.dump(st, open(os.path.join(outdir, 'STATUS.json'), 'w'), indent=1)
     print(json.dumps(st, indent=1))
 
